@@ -259,6 +259,12 @@ def _loop(rep, ex: Explorer):
             rep.check(ok, "TIMEOUT.guarded-raise", site, "expiry", "TimeoutError is raised exactly when a deadline exists and is expired, before the solver is called again",
                       extracted=f"{exc.cls}, expired={expired}, solver calls before={len(computes)}", required="TimeoutError under deadline ∧ expired", function=site)
             continue
+        if expired is True:
+            # an observed expiry must leave through TimeoutError: only that is turned into a flagged row by the wrappers; a
+            # (partial) family of correction sets handed back would be consumed as if it were complete
+            rep.violation("TIMEOUT.guarded-raise", site, "expiry", "an expired deadline observed in the enumeration ends it with TimeoutError",
+                          extracted=f"deadline expired, outcome {p.outcome[0]} (the sets found so far are returned)", required="raise TimeoutError", function=site)
+            continue
         n += 1
         news = [e for e in evs if e.kind == "rc2.new"]
         if news:
